@@ -159,6 +159,6 @@ func C16(tier string) int {
 		Drivers:     []MCDriver{{Name: "batch", Params: two, Quick: 2, Thorough: 4, Delay: true}, {Name: "batch", Params: three, Quick: 2, Thorough: 3, Delay: true}},
 		Rule:        "stateless depth-first exploration of every schedule with at most the stated number of deviations from the default schedule (delay bounding: a deviation is any non-default choice - preempting the running thread, picking another than the first enabled thread when it blocks or ends, or letting a timer fire early) of 2-3 concurrent Batch callers whose functions increment their own counter and succeed / return an error / panic on the first, second or every invocation, for MaxBatchSize 0..3 and MaxBatchDelay 0 / 10ms; the batch timer is a virtual-time pseudo-thread, the trigger goroutine and result channels are scheduled objects; oracle per caller: nil => counter +1 exactly, own error or panic => +0, never a foreign error or the trySolo sentinel, no deadlock",
 		Assumptions: []string{"virtual time: a timer may fire at any scheduling point (costing one deviation while another thread is runnable)"},
-		Quick:       100 * time.Second, Thorough: 25 * time.Minute,
+		Quick:       100 * time.Second, Thorough: 10 * time.Minute,
 	}, tier)
 }
